@@ -54,6 +54,8 @@ def parseReload (op : List String) : Option String :=
 structure QReq where
   tmpl : String
   via : String
+  method : String
+  dm : Bool          -- the walked route accepts this method
   present : Bool
   vals : List String
 
@@ -61,13 +63,15 @@ def parseQ (op : List String) : Option QReq :=
   match op with
   | "q" :: rest =>
     let via := (kv rest "via").getD "router"
+    let meth := (kv rest "m").getD "GET"
+    let dm := (kv rest "dm").getD "1" == "1"
     if via != "router" && via != "mw" then none else
     match kv rest "tmpl", kv rest "hdr", kv rest "tok", kv rest "tok2" with
     | some t, some h, some a, some b =>
       match h with
-      | "none" => some { tmpl := t, via := via, present := false, vals := [] }
-      | "one" => some { tmpl := t, via := via, present := true, vals := [dec a] }
-      | "two" => some { tmpl := t, via := via, present := true, vals := [dec a, dec b] }
+      | "none" => some { tmpl := t, via := via, method := meth, dm := dm, present := false, vals := [] }
+      | "one" => some { tmpl := t, via := via, method := meth, dm := dm, present := true, vals := [dec a] }
+      | "two" => some { tmpl := t, via := via, method := meth, dm := dm, present := true, vals := [dec a, dec b] }
       | _ => none
     | _, _, _, _ => none
   | _ => none
@@ -84,7 +88,13 @@ def qStep (s : QSt) (op : List String) (_ : List (List String)) : QSt × Option 
   | none =>
     match parseQ op with
     | none => (s, some "bad-op")
-    | some r => (s, (step s.cfgTok (.request r.vals)).2.map respStr)
+    | some r =>
+      -- the kept middleware instance does not look at the method; the router does
+      if r.via == "router" then
+        match routerRespond r.method s.cfgTok r.vals with
+        | .proxied => (s, some "class=proxied st=200")
+        | .handled resp => (s, some (respStr resp))
+      else (s, (step s.cfgTok (.request r.vals)).2.map respStr)
 
 def containsSub (hay needle : String) : Bool :=
   needle != "" && (hay.splitOn needle).length > 1
@@ -123,7 +133,10 @@ def qMon (s : QSt) (op : List String) (exts : List (List String)) (obs : Option 
     let toks := o.splitOn " "
     let cls := (kv toks "class").getD "?"
     let body := dec ((kv toks "body").getD "%")
-    let authorised := s.cfgTok != "" && r.vals.headD "" == s.cfgTok
+    let tokenOK := s.cfgTok != "" && r.vals.headD "" == s.cfgTok
+    -- data must be answered to the exact token on a method the data routes accept; for any other
+    -- method nothing is required except: no data
+    let authorised := tokenOK && r.dm
     let tc := tokClass s.cfgTok r
     let reloaded := s.reloads > 0
     let mk (sig what : String) : Fail := { prop := "C25", sig := sig, what := what }
@@ -135,16 +148,19 @@ def qMon (s : QSt) (op : List String) (exts : List (List String)) (obs : Option 
           else
             [mk s!"C25:valid-token-refused:tmpl={r.tmpl}" s!"request with exactly the configured token answered {o.take 60}"]
         else []
+      else if cls == "data" && tokenOK then
+        [mk s!"C25:data-on-unrouted-method:method={r.method}:tmpl={r.tmpl}" s!"{r.method} is not a method of the data route, yet it was answered with data"]
       else if cls == "data" then
         let n := exts.findSome? fun e => match e with
           | ["secrets", _, "=", v] => some v
           | _ => none
         if reloaded && s.old.contains (r.vals.headD "") then
-          [mk s!"C25:data-with-stale-token:via={r.via}:tmpl={r.tmpl}:now={if s.cfgTok == "" then "unconfigured" else "other-token"}"
+          [mk s!"C25:data-with-stale-token:method={r.method}:tmpl={r.tmpl}:now={if s.cfgTok == "" then "unconfigured" else "other-token"}"
             s!"a token that was configured before the reload still unlocks the endpoint ({n.getD "?"} of the case's secrets in the body)"]
         else
-        [mk s!"C25:data-without-valid-token:tmpl={r.tmpl}:tok={if s.cfgTok == "" then "unconfigured" else tc}"
+        [mk s!"C25:data-without-valid-token:method={r.method}:tmpl={r.tmpl}:tok={if s.cfgTok == "" then "unconfigured" else tc}"
           s!"route answered with data ({n.getD "?"} of the case's secrets in the body) although the request does not carry the configured token"]
+      else if !r.dm then []     -- a method the data routes do not accept: anything but data is fine (today: proxied upstream)
       else if cls != "error" then
         [mk s!"C25:unexpected-response:tmpl={r.tmpl}:{(kv toks "st").getD "?"}" s!"neither data nor the token checker's refusal: {o.take 80}"]
       else
